@@ -2,6 +2,7 @@
 twin (timing nodes removed) is run first with one tag per element: it yields the expected sink values, their lineage
 and the elements still held at the end.  The real pipeline then runs on the virtual loop under random schedules."""
 import argparse
+import itertools
 import json
 import logging
 import os
@@ -47,6 +48,17 @@ PIPES = {
     "pair_flatten_buffer": (lambda s, T: s.map(pair).flatten().buffer(1), lambda s: s.map(pair).flatten()),
     "partition_flatten_rate": (lambda s, T: s.partition(2).flatten().rate_limit(1), lambda s: s.partition(2).flatten()),
 }
+# pipelines whose last node feeds two consumers side by side (the second one a lazily started native coroutine): name -> styles
+FANOUT = {
+    "partition_two_sinks": ("asyncdef", "asyncdef"),
+    "buffer_two_sinks": ("asyncdef", "coro"),
+    "mapasync_two_sinks": ("future", "asyncdef"),
+}
+PIPES.update({
+    "partition_two_sinks": (lambda s, T: s.partition(2), lambda s: s.partition(2)),
+    "buffer_two_sinks": (lambda s, T: s.buffer(2).map(inc), lambda s: s.map(inc)),
+    "mapasync_two_sinks": (lambda s, T: s.map_async(T.fn, parallelism=2), lambda s: s.map(lambda x: x)),
+})
 
 
 class Tasks:
@@ -85,9 +97,13 @@ def twin_run(name, n):
             def update(self, x, who=None, metadata=None):
                 # lineage: the elements whose references travel with the value, and the element whose emission produced it
                 # (flatten passes the metadata on with the last piece only: the other pieces are that element's data all the same)
-                out.append((freeze(x), sorted(set(aprobe.enc_md(metadata)) | {cur[0]})))
+                out.append((freeze(x), sorted(set(aprobe.enc_md(metadata)) | {cur[0]}), self.pid))
                 return []
-        rec = Rec(node)      # (downstreams are weak references: keep the node alive)
+        rec = []
+        for pid in range(1, len(FANOUT.get(name, (None,))) + 1):
+            r_ = Rec(node)      # (downstreams are weak references: keep the node alive)
+            r_.pid = pid
+            rec.append(r_)
         tags = {e: {"tag": e, "ref": aprobe.RC(e, log)} for e in range(1, n + 1)}
         for e in range(1, n + 1):
             cur[0] = e
@@ -107,7 +123,8 @@ def run(name, n, schedule, cons):
         T = Tasks(log)
         s = Stream(asynchronous=True)
         node = PIPES[name][0](s, T)
-        probe = aprobe.Probe(node, log, mode=cons)     # keep a reference: downstreams are weak
+        styles = FANOUT.get(name) or (cons,)
+        probe = [aprobe.Probe(node, log, mode=m, pid=i) for i, m in enumerate(styles, start=1)]     # keep a reference: downstreams are weak
         tags = {e: {"tag": e, "ref": aprobe.RC(e, log)} for e in range(1, n + 1)}
         nxt = [0]
         idle = [0]
@@ -177,12 +194,10 @@ def run(name, n, schedule, cons):
             k = e["ev"]
             if k == "deliver":
                 val = freeze(e.get("rawx"))
-                kk = next((i for i, (v, _) in enumerate(expected, start=1) if v == val and i not in used), 0)
+                kk = next((i for i, (v, _, pid) in enumerate(expected, start=1) if v == val and pid == e.get("probe", 1) and i not in used), 0)
                 used.add(kk)
                 d2k[e["d"]] = kk
                 ev.append({"ev": "Deliver", "k": kk})
-                if cons == "sync":
-                    pass
             elif k == "cons_done":
                 ev.append({"ev": "Consume", "k": d2k.get(e["d"], 0)})
             elif k == "cons_fail":
@@ -192,8 +207,9 @@ def run(name, n, schedule, cons):
         ev.append({"ev": "End"})
         del probe
         return {"pipe": name, "cons": cons, "schedule": "".join(schedule), "ne": n, "nd": len(expected),
-                "lineage": [lin for _, lin in expected], "held": held, "ordered": True, "ev": ev,
-                "expected": [json.dumps(v) for v, _ in expected]}
+                "lineage": [lin for _, lin, _ in expected], "held": held, "ordered": True, "ev": ev,
+                "sink": [pid for _, _, pid in expected],
+                "expected": [json.dumps(v) for v, _, _ in expected]}
     finally:
         vloop.uninstall(loop)
 
@@ -212,14 +228,23 @@ def main():
     runs = []
     per = 40 if a.tier == "quick" else 400
     for name in PIPES:
-        for cons in ("future", "sync", "coro"):
-            for _ in range(per if cons == "future" else per // 4):
+        for cons in (("future", "sync", "coro") if name not in FANOUT else ("fanout",)):
+            for _ in range(per if cons in ("future", "fanout") else per // 4):
                 n = rng.randint(3, 5)
-                sched = [rng.choice("eessssdddDaaffF" + ("ZZ" if name == "mapasync_restart" else "")) for _ in range(rng.randint(6, 24))]
+                alpha = "eessssdddDaaffF" + ("ZZ" if name == "mapasync_restart" else "")
+                if name in FANOUT:
+                    alpha = "eeessssssdDDDaffF"      # several consumers: the newest delivery often finishes first
+                sched = [rng.choice(alpha) for _ in range(rng.randint(6, 24))]
                 if cons != "sync" and rng.random() < 0.3:
                     # one consumer failure somewhere in the second half
                     sched.insert(rng.randint(len(sched) // 2, len(sched)), "x")
                 runs.append(run(name, n, sched, cons))
+    # several consumers side by side: two batches / elements on their way at once, the consumers finishing them in every order
+    for name in FANOUT:
+        for fin in itertools.permutations("DDdd"):
+            for gap in ("ss", "sssss"):
+                sched = list("ee" + gap + "ee" + gap + "ff" + gap) + [c for f in fin for c in (f + gap)]
+                runs.append(run(name, 4, sched, "fanout"))
     for i, r in enumerate(runs, start=1):
         r["id"] = i
     os.makedirs(a.out, exist_ok=True)
